@@ -104,7 +104,70 @@ Qed.
 
 (* hence the whole checker accepts every history the model itself produces *)
 Theorem model_run_check_clean cfg evs : cfg_ok cfg = true ->
-  length (run_obs step_opt (hinit cfg) evs) = length evs -> run_check_routine cfg evs (run_obs step_opt (hinit cfg) evs) = [].
+  length (run_obs step_opt (hinit cfg) evs) = length evs -> run_check_routine0 cfg evs (run_obs step_opt (hinit cfg) evs) = [].
 Proof.
-  intros Hok Hl. unfold run_check_routine, run_check. rewrite (replay_own evs (hinit cfg) 0 Hl), (model_satisfies_monitors cfg evs Hok). reflexivity.
+  intros Hok Hl. unfold run_check_routine0, run_check. rewrite (replay_own evs (hinit cfg) 0 Hl), (model_satisfies_monitors cfg evs Hok). reflexivity.
+Qed.
+
+(* ---- hasbo = 2: the script comes from the model of the backoff package (constant kind) ---- *)
+Lemma ceil_ms_mul k : Backoff.Model.ceil_ms (k * Backoff.Model.ms) = k.
+Proof.
+  unfold Backoff.Model.ceil_ms, Backoff.Model.ms.
+  replace (k * 1000000 + 1000000 - 1)%N with (999999 + k * 1000000)%N by lia.
+  rewrite N.div_add by discriminate. reflexivity.
+Qed.
+
+Lemma expand_real_constant v c n x d rest :
+  expand (v :: c :: n :: 2 :: x :: d :: rest)%N =
+  (v :: c :: n :: 1 :: x :: repeat (if N.eqb d 0 then 5000 else d) real_script_len)%N.
+Proof.
+  unfold expand, Backoff.Model.Construct. cbn [Backoff.Model.c_kind Backoff.Model.c_const]. rewrite N.eqb_refl.
+  unfold Backoff.Model.bo_script, Backoff.Model.bo_script_ns. cbn [Backoff.Model.p_kind Backoff.Model.p_cint].
+  rewrite map_repeat, ceil_ms_mul. reflexivity.
+Qed.
+
+Lemma expand_real_cfg_ok v c n x d rest : nz n = true -> cfg_ok (expand (v :: c :: n :: 2 :: x :: d :: rest)%N) = true.
+Proof.
+  intros Hn. rewrite expand_real_constant. unfold cfg_ok. rewrite Hn. cbn [andb nz negb N.eqb orb].
+  apply forallb_forall. intros y Hy. apply repeat_spec in Hy. subst y.
+  unfold nz. destruct (N.eqb_spec d 0) as [E|E]; [reflexivity|]. destruct (N.eqb_spec d 0); [contradiction|reflexivity].
+Qed.
+
+Theorem model_run_check_clean_real v c n x d rest evs : nz n = true ->
+  let cfg := (v :: c :: n :: 2 :: x :: d :: rest)%N in
+  length (run_obs step_opt (hinit (expand cfg)) evs) = length evs ->
+  run_check_routine cfg evs (run_obs step_opt (hinit (expand cfg)) evs) = [].
+Proof.
+  intros Hn cfg Hl. unfold run_check_routine. apply model_run_check_clean; [apply expand_real_cfg_ok; exact Hn | exact Hl].
+Qed.
+
+(* ---- hasbo = 3: the empty backoff configuration = the package's default exponential back-off ---- *)
+Definition default_expo_script : list N :=
+  ([800; 1440; 2592; 4666; 8399; 15117] ++ repeat 20000 58)%N.
+
+Lemma expand_real_default v c n x rest :
+  expand (v :: c :: n :: 3 :: x :: rest)%N = (v :: c :: n :: 1 :: x :: default_expo_script)%N.
+Proof.
+  unfold expand.
+  assert (E : (let c0 := {| Backoff.Model.c_kind := 0; Backoff.Model.c_init := 0; Backoff.Model.c_mult := 0;
+                            Backoff.Model.c_max := 0; Backoff.Model.c_rf := 0; Backoff.Model.c_maxel := 0;
+                            Backoff.Model.c_const := 0 |}%N in
+               option_map (fun p => Backoff.Model.bo_script p real_script_len) (Backoff.Model.Construct c0))
+              = Some default_expo_script) by (vm_compute; reflexivity).
+  cbv zeta in E.
+  destruct (Backoff.Model.Construct _) as [p|]; [|discriminate].
+  cbn [option_map] in E. injection E as E. rewrite E. reflexivity.
+Qed.
+
+Lemma expand_real_default_cfg_ok v c n x rest : nz n = true -> cfg_ok (expand (v :: c :: n :: 3 :: x :: rest)%N) = true.
+Proof.
+  intros Hn. rewrite expand_real_default. unfold cfg_ok. rewrite Hn. vm_compute. reflexivity.
+Qed.
+
+Theorem model_run_check_clean_real_default v c n x rest evs : nz n = true ->
+  let cfg := (v :: c :: n :: 3 :: x :: rest)%N in
+  length (run_obs step_opt (hinit (expand cfg)) evs) = length evs ->
+  run_check_routine cfg evs (run_obs step_opt (hinit (expand cfg)) evs) = [].
+Proof.
+  intros Hn cfg Hl. unfold run_check_routine. apply model_run_check_clean; [apply expand_real_default_cfg_ok; exact Hn | exact Hl].
 Qed.
